@@ -599,4 +599,20 @@ theorem wrap_sectioning_witness_repaired :
       = (wrapFullF allFixes hangCfg [(0, [c "a", c "b", c "c", c "d", c "e", c "f"]), (1, [zw])] 6 0 none).map contents := by
   constructor <;> rfl
 
+/-- **A wrap symbol wider than one column** (accepted by `ensure_display_width_1`, which counts
+clusters, not columns): a section that fits as a whole may use the column the symbol needs, so
+the row breaks depend on the sectioning — `baz) s` with symbol `日`, line width 4: one section
+breaks after `ba`, the sections `baz` + `) s` break after `baz` (a row of width 5). On the real
+binary: the same superimpose panic. `wrap_sectioning_independent` therefore assumes symbol
+width 1; the proposed repair (notes/fix-wrap-wide-symbol.diff) makes delta refuse such
+symbols. -/
+theorem wrap_sectioning_dependent_wide_symbol_witness :
+    (wrapFullF noFixes { hangCfg with leftSym := ⟨"日", 2⟩ }
+        [(0, [c "b", c "a", c "z", c ")", c " ", c "s"])] 4 0 none).map contents
+      = .ok [["b", "a"], ["z", ")", " ", "s"]] ∧
+    (wrapFullF noFixes { hangCfg with leftSym := ⟨"日", 2⟩ }
+        [(0, [c "b", c "a", c "z"]), (1, [c ")", c " ", c "s"])] 4 0 none).map contents
+      = .ok [["b", "a", "z"], [")", " ", "s"]] := by
+  constructor <;> rfl
+
 end C07
